@@ -44,12 +44,12 @@ class Versions:
         return self.vals[key]
 
     def stat_file(self):
-        return simk.stat_record(self.k, P, b"cat", b"S", {4: self.val("ppid"), 14: self.val("utime"), 15: self.val("stime"), 22: 5000})
+        return simk.stat_record(self.k, P, b"cat%d" % self.v, b"S", {4: self.val("ppid"), 14: self.val("utime"), 15: self.val("stime"), 22: 5000})
 
     def status_file(self):
         k = self.k
-        return (b"Name:\tcat\nUmask:\t0022\nState:\tS (sleeping)\nUid:\t" + b"\t".join(k.num(self.val(f"uid{i}")) for i in range(4)) + b"\nGid:\t" + b"\t".join(k.num(self.val(f"gid{i}")) for i in range(4)) +
-                b"\nThreads:\t" + k.num(self.val("threads")) + b"\nCpus_allowed_list:\t0-3\nvoluntary_ctxt_switches:\t1\nnonvoluntary_ctxt_switches:\t2\n")
+        return (b"Name:\tcat%d\nUmask:\t0022\nState:\tS (sleeping)\nUid:\t" + b"\t".join(k.num(self.val(f"uid{i}")) for i in range(4)) + b"\nGid:\t" + b"\t".join(k.num(self.val(f"gid{i}")) for i in range(4)) +
+                b"\nThreads:\t" + k.num(self.val("threads")) + b"\nCpus_allowed_list:\t0-3\nvoluntary_ctxt_switches:\t1\nnonvoluntary_ctxt_switches:\t2\n") % self.v
 
     def smaps_file(self):
         k = self.k
@@ -90,7 +90,7 @@ class Versions:
         elif e == "memory_full_info":
             ctx.prove(ctx.all([ctx.eq(r.pss, g("pss") * 1024), ctx.eq(r.uss, g("priv") * 1024), ctx.eq(r.swap, g("swap") * 1024)]), label, detail=e)
         elif e == "name":
-            ctx.prove(r == "cat", label, detail=e)
+            ctx.prove(r == f"cat{v}", label, detail=f"{e}: {r!r}, the record version first read is {v}")
         elif e == "status":
             ctx.prove(r == "sleeping", label, detail=e)
 
@@ -110,7 +110,7 @@ def sequence(ctx, K, raise_inside):
     enter_at = ctx.choice("enter_at", list(range(K + 1)))
     exit_at = ctx.choice("exit_at", list(range(K + 1)))
     ctx.assume(enter_at <= exit_at)
-    events = [ctx.choice(f"e{i}", list(METHODS) + ["bump", "nested"]) for i in range(K)]
+    events = [ctx.choice(f"e{i}", list(METHODS) + ["bump", "nested", "repr"]) for i in range(K)]
     with k.installed():
         p = psutil.Process(P)
         V.holder["proc"] = p._proc
@@ -127,6 +127,18 @@ def sequence(ctx, K, raise_inside):
                     with p.oneshot():
                         pass
                     ctx.prove(hasattr(p, "_cache") or hasattr(p._proc, "_cache"), "nested-exit-keeps-outer-block")
+                return
+            if e == "repr":
+                # str()/repr() of the object (a log line in the middle of a block) asks name and status through a block of its own:
+                # inside an enclosing block that changes nothing (the reads it makes are the block's reads)
+                b_st = len(V.own_reads["stat"])
+                ctx.guard("method-no-exception", str, p)
+                a_st = len(V.own_reads["stat"])
+                if inside:
+                    opens_in_block["stat"] += a_st - b_st
+                    if a_st > b_st:
+                        block_first.setdefault("stat", V.v)
+                    ctx.prove(hasattr(p, "_cache") and hasattr(p._proc, "_cache"), "nested-exit-keeps-outer-block", detail="after str(p) inside the block")
                 return
             src = METHODS[e]
             before = len(V.own_reads[src])
